@@ -3,6 +3,7 @@ CONSTANTS
   N = 3
   MaxDeliver = 3
   MaxCrash = 1
+  Forks = FALSE
   Gaps = FALSE
 INVARIANTS InvHeadLinked InvIndex InvHeadState InvMarks InvExecuted InvWeightMonotone InvCrashHeadWeak
 CHECK_DEADLOCK FALSE
